@@ -321,11 +321,13 @@ impl Connector {
                 // inside Connector rather than evaluating it early)
                 let midpoint =
                     if let (Some(start_el), Some(end_el)) = (&self.start_el, &self.end_el) {
-                        let start_bb = start_el
-                            .bbox()?
+                        // (via the context, as for vertical connectors: a <use> only
+                        // has a bounding box through the element it refers to)
+                        let start_bb = ctx
+                            .get_element_bbox(start_el)?
                             .ok_or_else(|| SvgdxError::MissingBoundingBox(start_el.to_string()))?;
-                        let end_bb = end_el
-                            .bbox()?
+                        let end_bb = ctx
+                            .get_element_bbox(end_el)?
                             .ok_or_else(|| SvgdxError::MissingBoundingBox(end_el.to_string()))?;
                         let overlap_top = start_bb
                             .scalarspec(ScalarSpec::Miny)
